@@ -1208,6 +1208,9 @@ func (g *vGen) cfgLine() string {
 	if r.Intn(10) == 0 {
 		wm = 0
 	}
+	if r.Intn(15) == 0 { // the watermark is a uint32: values beyond MaxInt32 mean "never saturated"
+		wm = []int{2147483647, 2147483648, 4294967295}[r.Intn(3)]
+	}
 	fb, rr, uc, ums := r.Intn(2), 0, 0, 0
 	switch g.profile {
 	case "load":
